@@ -1,4 +1,5 @@
 import FastorModel.Proofs.ViewWrite
+import FastorModel.Proofs.Odometer
 import Mathlib.Data.List.Nodup
 import Mathlib.Data.List.Range
 /-
@@ -21,9 +22,11 @@ import Mathlib.Data.List.Range
                                  `odo_vector_only_if` the n-D views store vectors only when `_is_vectorisable`.
   * `writes_seq`                 sequences of writes compose: the memory after a history is the fold of the
                                  per-write specifications.
-  NOT proved here (tied by the correspondence only: ordered store positions + whole-tensor image of every n-D
-  case): that the n-D odometer `odoLoop` visits every multi-index exactly once in row-major order.  Given
-  that enumeration, `write_correct_of_distinct` is the n-D statement.
+  * `write_correct_nd`           n-D views of EVERY rank (odometer; equal-order binders and scalar right-hand sides; vector and
+                                 scalar branch): via `steps_box` (the odometer visits the box exactly once in row-major
+                                 order, induction on the rank), `odo_lanes`, `pos_nodup` (mixed-radix injectivity).
+  NOT proved here (tied by the correspondence only): for the binders of UNEQUAL order (rhs read through the running
+  `counter`, kind `f`) that `counter` equals the flat index of the visited multi-index.
 -/
 namespace Fastor.C05
 open Fastor Fastor.ViewWrite
@@ -206,6 +209,118 @@ theorem odo_vector_only_if (V : Nat) (dims : List Nat) (axs : List Ax) (flatRhs 
   simp only [hc, if_false, List.mem_map] at hit
   obtain ⟨_, _, rfl⟩ := hit
   simp at hk
+
+/-! ### n-D views: every rank -/
+
+/-- every selected coordinate of every axis lies inside the parent's axis, steps are positive -/
+def InBounds : List Nat → List Ax → Prop
+  | d :: ds, a :: axs => 0 < a.step ∧ (∀ k < a.ext, k * a.step + a.first < d) ∧ InBounds ds axs
+  | [], [] => True
+  | _, _ => False
+
+theorem forRange_range (e : Nat) : forRange 0 e 1 = List.range e := by
+  rw [forRange_one]; simp
+
+theorem box_ones_cons (e : Nat) (es : List Nat) :
+    box (((e :: es).map fun e => (e, 1))) = (List.range e).flatMap fun x => (box (es.map fun e => (e, 1))).map (x :: ·) := by
+  simp [box, forRange_range]
+
+theorem pos_lt : ∀ (dims : List Nat) (axs : List Ax), InBounds dims axs →
+    ∀ j ∈ box ((axs.map (·.ext)).map fun e => (e, 1)), posOf dims axs j < dims.prod := by
+  intro dims
+  induction dims with
+  | nil =>
+    intro axs hin j _
+    cases axs with
+    | nil => simp [posOf]
+    | cons a r => simp [InBounds] at hin
+  | cons d ds ih =>
+    intro axs hin j hj
+    cases axs with
+    | nil => simp [InBounds] at hin
+    | cons a rest =>
+      obtain ⟨_, hb, hrest⟩ := hin
+      rw [List.map_cons, box_ones_cons] at hj
+      obtain ⟨x, hx, hj⟩ := List.mem_flatMap.1 hj
+      obtain ⟨js, hjs, rfl⟩ := List.mem_map.1 hj
+      have h1 := ih rest hrest js hjs
+      have h2 := hb x (List.mem_range.1 hx)
+      show (x * a.step + a.first) * ds.prod + posOf ds rest js < (d :: ds).prod
+      rw [List.prod_cons]
+      have : (x * a.step + a.first + 1) * ds.prod ≤ d * ds.prod := Nat.mul_le_mul_right _ h2
+      rw [Nat.add_mul, Nat.one_mul] at this
+      omega
+
+/-- distinct multi-indices of the slice are stored at distinct positions (mixed-radix argument) -/
+theorem pos_nodup : ∀ (dims : List Nat) (axs : List Ax), InBounds dims axs → ∀ pb : Nat,
+    ((box ((axs.map (·.ext)).map fun e => (e, 1))).map fun j => pb + posOf dims axs j).Nodup := by
+  intro dims
+  induction dims with
+  | nil =>
+    intro axs hin pb
+    cases axs with
+    | nil => simp [box]
+    | cons a r => simp [InBounds] at hin
+  | cons d ds ih =>
+    intro axs hin pb
+    cases axs with
+    | nil => simp [InBounds] at hin
+    | cons a rest =>
+      obtain ⟨hs, hb, hrest⟩ := hin
+      rw [List.map_cons, box_ones_cons, List.map_flatMap, List.nodup_flatMap]
+      refine ⟨?_, ?_⟩
+      · intro x _
+        rw [List.map_map]
+        have := ih rest hrest (pb + (x * a.step + a.first) * ds.prod)
+        simpa [Function.comp_def, posOf, Nat.add_assoc] using this
+      · apply List.Pairwise.imp _ (List.pairwise_lt_range (n := a.ext))
+        intro x y hxy
+        simp only [Function.onFun, List.disjoint_left, List.map_map, List.mem_map, Function.comp]
+        rintro p ⟨js, hjs, rfl⟩ ⟨js', hjs', hpe⟩
+        have h1 := pos_lt ds rest hrest js (by simpa [List.map_map] using hjs)
+        have h2 := pos_lt ds rest hrest js' (by simpa [List.map_map] using hjs')
+        have hX : x * a.step + a.first + 1 ≤ y * a.step + a.first := by
+          have := Nat.mul_lt_mul_of_pos_right hxy hs; omega
+        have hXP := Nat.mul_le_mul_right ds.prod hX
+        rw [Nat.add_mul, Nat.one_mul] at hXP
+        simp only [posOf] at hpe
+        omega
+
+/-- **write_correct, n-D views, every rank** (`TensorViewExpr<…,DIMS>`, `TensorFixedViewExprnD`, binders of equal
+    order and scalar right-hand sides): the odometer visits every multi-index `j` of the slice exactly once; element
+    `j`, stored at `posOf dims axs j = Σ_k products_k (j_k step_k + first_k)`, ends as `op(old, rhs (flat j))`, and every
+    other position of memory is unchanged — for every width, vector branch or scalar branch. -/
+theorem write_correct_nd (V : Nat) (hV : 0 < V) (dims : List Nat) (axs : List Ax) (hne : axs ≠ [])
+    (hin : InBounds dims axs) (hlen : dims.length = axs.length) (hext : ∀ a ∈ axs, 0 < a.ext)
+    (cstep : Nat) (hcs : cstep = V ∨ cstep = 1) (op : WOp) (r : Nat → α) (m : Nat → α) :
+    let exts := axs.map (·.ext)
+    let m' := exec op (fun _ => r) (odoIters V dims axs false cstep) m
+    (∀ j ∈ box (exts.map fun e => (e, 1)), m' (posOf dims axs j) = op.ap (m (posOf dims axs j)) (r (flat exts j))) ∧
+    (∀ p, (∀ j ∈ box (exts.map fun e => (e, 1)), p ≠ posOf dims axs j) → m' p = m p) := by
+  intro exts m'
+  have hl := odo_lanes V hV dims axs hne hlen hext cstep hcs
+  rw [incs_one] at hl
+  have hnd : ((lanesOf (odoIters V dims axs false cstep)).map (·.1)).Nodup := by
+    rw [hl, List.map_map]
+    have := pos_nodup dims axs hin 0
+    simpa [Function.comp_def] using this
+  have h := exec_spec op r (odoIters V dims axs false cstep) m hnd
+  refine ⟨?_, ?_⟩
+  · intro j hj
+    have hmem : (posOf dims axs j, flat exts j) ∈ lanesOf (odoIters V dims axs false cstep) := by
+      rw [hl]; exact List.mem_map.2 ⟨j, hj, rfl⟩
+    exact h.1 _ hmem
+  · intro p hp
+    apply h.2
+    rw [hl]
+    intro hmem
+    simp only [List.map_map, List.mem_map, Function.comp] at hmem
+    obtain ⟨j, hj, hjp⟩ := hmem
+    exact hp j (by simpa [exts, List.map_map] using hj) hjp.symm
+
+/-- non-vacuity: a 3-D slice `A(seq(0,2), seq(1,4,2), seq(2,6))` of a 2x4x6 tensor -/
+example : InBounds [2, 4, 6] [⟨0, 1, 2⟩, ⟨1, 2, 2⟩, ⟨2, 1, 4⟩] := by
+  simp only [InBounds]; decide
 
 /-- **writes_seq**: a history of writes, each with pairwise distinct stored positions, leaves the memory
     obtained by folding the per-write specifications -/
